@@ -469,6 +469,37 @@ def gen_history(rng, focus, nops, hcfg):
     return ops, meta
 
 
+def corpus_histories():
+    """fixed histories that run before the random ones (so that the sequences past changes needed do not depend on what a random stream draws):
+    a block whose flags must not carry over to the next block, blocks left by an exception, stray frames between two calls, a failed call followed by
+    an ordinary one, a session change followed by configuration changes"""
+    tp = ('tp',)
+    good = lambda: ('call', tp, [(1, b'\x7e\x00')])
+    neg = lambda: ('call', tp, [(1, b'\x7f\x3e\x22')])
+    silent = lambda: ('call', tp, [])
+    pend_silence = lambda: ('call', tp, [(1, b'\x7f\x3e\x78')])
+    g, n_, s_, ps = {'kind': 'good', 'p2': None}, {'kind': 'neg', 'p2': None}, {'kind': 'silence', 'p2': None}, {'kind': 'pend_silence', 'p2': None}
+    er = lambda: ('call', ('er', 1), [(1, b'\x51\x01')])
+    hs = [
+        # wait_nrc block, then a bare block: the bare block neither reads nor raises
+        ([('espr', True), good(), ('xspr', 'normal'), ('espr', 'b'), neg(), good(), ('xspr', 'normal'), good()], [{}, g, {}, {}, n_, g, {}, g]),
+        ([('espr', True), neg(), ('xspr', 'exc'), ('espr', 'b'), neg(), ('xspr', 'normal'), neg()], [{}, n_, {}, {}, n_, {}, n_]),
+        # a block left by an exception: the next call outside is an ordinary call
+        ([('espr', False), good(), ('xspr', 'exc'), good(), er(), neg()], [{}, g, {}, g, g, n_]),
+        ([('espr', True), pend_silence(), silent(), ('xspr', 'exc'), er(), silent()], [{}, ps, s_, {}, g, s_]),
+        ([('eovr', 'c:1101'), silent(), ('xovr', 'exc'), good(), er()], [{}, s_, {}, g, g]),
+        ([('espr', True), ('eovr', 'a:ff'), neg(), ('xovr', 'exc'), ('xspr', 'exc'), good(), neg()], [{}, {}, n_, {}, {}, g, n_]),
+        # stray frames between two calls, after a success and after a failure
+        ([good(), ('stray', b'\x7e\x00'), silent(), ('stray', b'\x7f\x3e\x22'), good()], [g, {}, s_, {}, g]),
+        ([silent(), ('stray', b'\x7e\x00'), ('stray', b'\x51\x01'), silent(), good()], [s_, {}, {}, s_, g]),
+        ([neg(), ('stray', b'\x7e\x00'), silent(), er(), ('stray', b'\x51\x01'), ('call', ('er', 1), [])], [n_, {}, s_, g, {}, s_]),
+        # a failed call, then switches off and a refused reply
+        ([silent(), ('sw', (False, False, False)), neg(), ('call', tp, [(1, b'\x7f\x3e')]), ('call', tp, [(1, b'\x51\x01')]), good()],
+         [s_, {}, n_, {'kind': 'invalid', 'p2': None}, {'kind': 'wrongsvc', 'p2': None}, g]),
+    ]
+    return hs
+
+
 def all_in_time(arr, before_timing, hcfg):
     """do all scripted frames arrive inside the window of the wait they answer? (independent recomputation:
     first window min(P2, rt), later windows min(P2*, rt - now))"""
